@@ -44,19 +44,17 @@ class ToStringImpl(AgendaWalk):
     def iter_name(self, cx):
         return 'child_iter' if cx.st.scope.lookup('child_iter') is not None else 'child_it'
 
+    # A namedtuple / struct-sequence CLASS is user-controlled: a hand-written tuple subclass may declare any number of
+    # `_fields`.  The comparison of the number of field names with the arity is therefore a designed guard (it raises
+    # InternalError for such classes), not an unreachable consistency check; the field loops are safe BECAUSE of it.
+    designed_guards = ('Number of fields and entries does not match.',)
+
     def setup(self, eng, st, fn):
         from .. import twinspec as T
         cx = super().setup(eng, st, fn)
         v = self.views['this']
         i = z3.Int('i!ntf')
         inr = z3.And(0 <= i, i < v.v.len)
-        # A-NTFIELDS: the field tuple of a namedtuple / struct-sequence class has as many names as the node has children (the
-        # class attribute `_fields` is not reassigned after treespecs of that class were made)
-        st.facts.append(z3.ForAll([i], z3.Implies(z3.And(inr, v.K(i) == K['NamedTuple']),
-                                                  M.py_len(T.nt_attr(v.D(i), T.nt_name('_fields'))) == v.A(i)), patterns=[v.D(i)]))
-        st.facts.append(z3.ForAll([i], z3.Implies(z3.And(inr, v.K(i) == K['StructSequence']),
-                                                  M.py_len(z3.Function('structseq_fields_of', Ref, Ref)(v.D(i))) == v.A(i)),
-                                  patterns=[v.D(i)]))
         st.facts.append(z3.ForAll([i], z3.Implies(z3.And(inr, z3.Or(v.K(i) == K['NamedTuple'], v.K(i) == K['StructSequence'])),
                                                   T.nt_is_type(v.D(i))), patterns=[v.D(i)]))
         return cx
@@ -86,10 +84,50 @@ class ToStringImpl(AgendaWalk):
                 ('forest-total', z3.Implies(i == n, self.F(i) == 1))]
 
     def raises(self, cx):
-        return {'pybind11::error_already_set': None, 'pybind11::type_error': None, 'pybind11::cast_error': None}
+        return {'pybind11::error_already_set': None, 'pybind11::type_error': None, 'pybind11::cast_error': None,
+                'optree::InternalError(guard)': None}
 
     def post(self, cx, ret):
         return []
 
     def frame_exc(self, cx):
         return self.default_frame(cx)
+
+
+def _tostring_impl_apply(self, eng, st, this, args, n):
+    """Call-site summary of ToStringImpl: runs Python (repr of keys / metadata), may raise, returns an opaque string."""
+    eng.may_call_python(st, 'repr() of keys / metadata (ToStringImpl)', n.get('line'))
+    for cls in ('pybind11::error_already_set', 'optree::InternalError(guard)'):
+        s_exc = st.clone()
+        eng.throw(s_exc, cls, n.get('line'), 'from repr()')
+    return [(st, Opaque('str'))]
+
+
+ToStringImpl.apply = _tostring_impl_apply
+
+from .equality import HashValue  # noqa: E402
+
+
+@contract
+class ToString(HashValue):
+    """repr(): the re-entrancy guard (set of (treespec, thread) identities that are being rendered) is restored on EVERY exit -
+    normal, re-entrant ("..."), and exceptional (a key / metadata __repr__ that raises) - so a failed repr leaves no trace;
+    the guard set is only touched under its mutex and no lock is held while ToStringImpl runs Python code."""
+    name = 'optree::PyTreeSpec::ToString'
+    props = ('C08', 'C15', 'C17')
+
+    def post(self, cx, ret):
+        return [('guard-restored', cx.st.ghost['running'] == self.entry_member)]
+
+    def frame_exc(self, cx):
+        return self.default_frame(cx) + [('guard-restored-on-exception', cx.st.ghost['running'] == self.entry_member),
+                                         ('exception-only-from-impl', z3.Not(self.entry_member))]
+
+    def raises(self, cx):
+        return {'pybind11::error_already_set': None, 'optree::InternalError(guard)': None}
+
+    def apply(self, eng, st, this, args, n):
+        eng.may_call_python(st, 'repr() of keys / metadata (ToString)', n.get('line'))
+        s_exc = st.clone()
+        eng.throw(s_exc, 'pybind11::error_already_set', n.get('line'), 'from repr()')
+        return [(st, Opaque('str'))]
